@@ -272,3 +272,54 @@ func VH_C11_par_join_vs_fulfill() {
 	vAssert(vLocksHeld() == 0, "C11.par.join.no-lock-held")
 	vAssert(vIsClosed(p1.Answer().Done()) && vIsClosed(p2.Answer().Done()), "C11.par.join.both-resolved")
 }
+
+// One step of the promise state machine from a pre-state built directly (the states "pending join"
+// and "unresolved" with or without a pipelined client, which real histories reach only with three
+// goroutines): resolve() must leave pending join, wake everything parked on the join channel and
+// close every completion signal.
+func VH_C11_resolve_step() {
+	p := NewPromise(Method{}, &vCaller{})
+	withClient := vNondetBool()
+	if withClient {
+		_ = p.Answer().Client()
+	}
+	pendingJoin := vNondetBool()
+	extra := make(chan struct{})
+	var j chan struct{}
+	p.mu.Lock()
+	p.caller = nil
+	if pendingJoin {
+		// as Join leaves it while it waits for its parent
+		j = make(chan struct{})
+		p.joined = j
+	}
+	if vNondetBool() {
+		// a child joined earlier: its completion signal is carried along
+		p.signals = append(p.signals, extra)
+	} else {
+		close(extra)
+	}
+	if vNondetBool() {
+		p.resolve(Ptr{}, nil)
+	} else {
+		p.resolve(Ptr{}, newError("rejected"))
+	}
+	vReach("resolved")
+	vAssert(p.joined == nil, "C11.step.left-pending-join")
+	vAssert(!p.isPendingJoin() && p.isResolved(), "C11.step.resolved-state")
+	vAssert(p.callsStopped == nil, "C11.step.calls-stopped-cleared")
+	p.mu.Unlock()
+	if pendingJoin {
+		vAssert(vIsClosed(j), "C11.step.join-waiters-released")
+	}
+	vAssert(vIsClosed(p.Answer().Done()), "C11.step.done-closed")
+	vAssert(vIsClosed(extra), "C11.step.every-signal-closed")
+	vAssert(vLocksHeld() == 0, "C11.step.no-lock-held")
+	// operations that wait on the promise return now
+	vNoBlock(true)
+	_, _ = p.Answer().Struct()
+	c := p.Answer().Client()
+	_ = c
+	p.ReleaseClients()
+	vAssert(vLocksHeld() == 0, "C11.step.after.no-lock-held")
+}
